@@ -103,7 +103,7 @@ def tokSem (flag : Bool := true) : Sem String :=
       | _ => tokBody c vals
     kind := fun v => if v.startsWith "arr:" then .array else if v.startsWith "true:" then .bool else .other }
 
-inductive Op | run | result (n : String) | flag (b : Bool) | add (n : Node) | copy
+inductive Op | run | result (n : String) | flag (b : Bool) | add (n : Node) | copy | del (n : String)
 
 /-- a history of `run()` / `.result` accesses and `add_command` calls; `flag` switches the environment condition under which
 `Fail = flag` bodies fail -/
@@ -119,6 +119,8 @@ def runOps (lib : String → Option CmdDecl) (p : Program) (ops : List Op) : St 
         (p, st', fl, outs ++ [match e with | some e => showPErr e | none => "ok"])
     | .flag b => (p, st, b, outs ++ ["ok"])
     | .copy => (p, st, fl, outs ++ ["ok"])      -- `copy.deepcopy(program)`: programs are values; the copy is the program, with what has finished
+    | .del n =>     -- `del program.commands[name]`: the command leaves the program, and with it what it had computed
+        ({ p with cmds := p.cmds.filter (·.resultName != n) }, { st with memo := st.memo.filter (·.1 != n) }, fl, outs ++ ["ok"])
     | .add n =>
         match fromNodes lib p [n] with
         | .error e => (p, st, fl, outs ++ [showPErr e])
@@ -133,6 +135,7 @@ def pOp : P Op := fun ts => do
   else if t == "flag1" then pure (.flag true, r)
   else if t == "add" then do let (n, r) ← pNode r; pure (.add n, r)
   else if t == "copy" then pure (.copy, r)
+  else if t == "del" then do let (n, r) ← pHex r; pure (.del n, r)
   else none
 
 /-- `prog <env> <ndecls> decl* <nnodes> node* <nops> op*` -/
